@@ -22,8 +22,8 @@ from pathlib import Path
 VERIF = Path(__file__).resolve().parent.parent
 LEAN = VERIF / "lean"
 REPO = Path(os.environ.get("QUANSINO_REPO", "/repo"))
-EVIDENCE = VERIF / "evidence"
-REPLAYS = VERIF / "replays"
+EVIDENCE = Path(os.environ.get("VERIF_EVIDENCE_DIR", VERIF / "evidence"))   # seeded-change runs write elsewhere
+REPLAYS = Path(os.environ.get("VERIF_REPLAY_DIR", VERIF / "replays"))
 CORPUS = VERIF / "harness" / "corpus"
 KNOWN = VERIF / "known_findings.json"
 
